@@ -371,11 +371,15 @@ func genEnd(r *vh.Rand, tier string) []string {
 	for i := 0; i < shots; i++ {
 		dest := []string{"stdout", "file"}[i%2]
 		n := r.PickInt([]int{1, 7, 500, 20000, 200000})
-		work := r.PickInt([]int{0, 0, 5, 50})
-		if i >= 2 && r.Chance(1, 4) { // a run longer than the flush period
-			n, work = 3000+r.Intn(3000), 1000
+		work := 0
+		instances := r.PickInt([]int{1, 2, 4, 8})
+		if r.Chance(1, 2) { // shots that take time (a sleep of some us takes up to a ms): fewer of them
+			n, work = r.PickInt([]int{1, 7, 200, 1000}), r.PickInt([]int{5, 50})
 		}
-		out = append(out, fmt.Sprintf("end %d %d %d %d %s", n, r.PickInt([]int{1, 2, 4, 8}), work, r.PickInt([]int{0, 0, 4096, 65536}), dest))
+		if i >= 2 && r.Chance(1, 4) { // a run longer than the flush period
+			n, work, instances = 2000+r.Intn(2000), 1000, 4
+		}
+		out = append(out, fmt.Sprintf("end %d %d %d %d %s", n, instances, work, r.PickInt([]int{0, 0, 4096, 65536}), dest))
 	}
 	return out
 }
